@@ -142,15 +142,16 @@ func genClaimRace(t *rapid.T, w *World, pre *Snapshot, n int) []Op {
 }
 
 type schedSpec struct {
-	genOps func(t *rapid.T, w *World, pre *Snapshot, n int) []Op
-	prop   string
-	test   string
-	rule   string
-	kinds  map[string]int // op kinds of the concurrent commands
-	minN   int
-	maxN   int
-	setup  Profile
-	extra  func(pre, final *Snapshot, cmds []ConcCmd) []string
+	growthOnly bool // judge only "history only grows" (C12), observed between controller actions
+	genOps     func(t *rapid.T, w *World, pre *Snapshot, n int) []Op
+	prop       string
+	test       string
+	rule       string
+	kinds      map[string]int // op kinds of the concurrent commands
+	minN       int
+	maxN       int
+	setup      Profile
+	extra      func(pre, final *Snapshot, cmds []ConcCmd) []string
 }
 
 func overlapping(cmds []ConcCmd) bool {
@@ -230,12 +231,22 @@ func runSchedTest(t *testing.T, sp schedSpec) {
 			for i, c := range sc.Cmds {
 				cmds[i] = ConcCmd{Op: c.Op, Park: c.Park}
 			}
+			var growth []string
 			if len(sc.Actions) > 0 {
-				cmds = w.runSchedule(cmds, sc.Actions).cmds
+				sr := w.runSchedule(cmds, sc.Actions)
+				cmds, growth = sr.cmds, sr.growth
 			} else {
 				cmds = w.runFree(cmds)
 			}
 			viol, _ := sp.judge(w, pre, cmds)
+			if sp.growthOnly {
+				viol = nil
+			}
+			if sp.growthOnly || sp.prop == "C02" {
+				for _, g := range growth {
+					viol = append(viol, Violation{sp.prop, g})
+				}
+			}
 			w.Close()
 			if len(viol) > 0 {
 				t.Fatalf("REPLAY-VIOLATION %s: %v", sp.prop, viol)
@@ -284,7 +295,8 @@ func runSchedTest(t *testing.T, sp schedSpec) {
 			ops = genConcOps(rt, w, pre, sp.kinds, n)
 		}
 		cmds := make([]ConcCmd, n)
-		free := pct(rt, 25, "free")
+		free := pct(rt, 25, "free") && !sp.growthOnly
+		var growth []string
 		var actions []SchedAction
 		for i := range ops {
 			cmds[i] = ConcCmd{Op: ops[i]}
@@ -302,6 +314,7 @@ func runSchedTest(t *testing.T, sp schedSpec) {
 			actions = genActions(rt, n)
 			sr := w.runSchedule(cmds, actions)
 			cmds = sr.cmds
+			growth = sr.growth
 			if sr.lockOverlap {
 				stats.Label("started_while_another_is_parked_holding_the_lock")
 			}
@@ -310,6 +323,14 @@ func runSchedTest(t *testing.T, sp schedSpec) {
 			stats.Label("free_running")
 		}
 		viol, _ := sp.judge(w, pre, cmds)
+		if sp.growthOnly {
+			viol = nil
+		}
+		if sp.growthOnly || sp.prop == "C02" {
+			for _, g := range growth {
+				viol = append(viol, Violation{sp.prop, g})
+			}
+		}
 		if len(viol) > 0 {
 			WriteReplay(replayPath, SchedCase{Property: sp.prop, Engine: "SCHED", Test: sp.test, Setup: setup, Cmds: cmds, Actions: actions, Violations: viol, LockMissing: lockMissing})
 			rt.Fatalf("%s violated: %v", sp.prop, viol)
@@ -446,5 +467,13 @@ func TestC11Conc(t *testing.T) {
 			}
 			return ops
 		},
+	})
+}
+
+func TestC12Conc(t *testing.T) {
+	runSchedTest(t, schedSpec{
+		prop: "C12", test: "TestC12Conc", growthOnly: true,
+		rule:  "a generated store and 2-4 concurrent mutating commands (appends and plan's whole-file rewrite mixed, compact excluded from the judgement) parked / resumed by the controller; the log is read after every controller action (exactly one process runs between two reads); oracle: every change keeps all earlier events, in order, with unchanged content; non-trivial = executions overlap and at least one park landed",
+		kinds: map[string]int{"new_task": 20, "set": 22, "claim": 8, "sequence": 10, "plan": 22, "prune_yes": 8, "compact": 6, "new_epic": 4}, minN: 2, maxN: 4, setup: setupProfile,
 	})
 }
